@@ -53,6 +53,15 @@ def World.new (w : World) (k : Nat) (ps : List Param) (fs : List Nat) (cap bytes
   | (h1, none) => { w with heap := h1, threw := true }
   | (h1, some (p, t)) => { (w.set k (some { (v0.setPtr p) with tbl := t })) with heap := h1, threw := false }
 
+/-- `BasicContiguousVector()`: no block, no table, capacity 0, fixed sizes 0; the stride locator knows the
+    stride of an element whose FixedSize spans are empty -/
+def Vec.default (ps : List Param) (junk : Nat → Nat) : Vec :=
+  let fs := ps.map (fun _ => 0)
+  { ps := ps, fs := fs, loc := { slots := junk, stride := (elemSize ps fs).stride } }
+
+def World.newDefault (w : World) (k : Nat) (ps : List Param) : World :=
+  { (w.set k (some (Vec.default ps w.junk))) with threw := false }
+
 /-- `reserve` / `grow` -/
 def World.reserve (w : World) (k n b : Nat) : World :=
   match w.vecs k with
